@@ -578,6 +578,14 @@ class World:
         old = self.master
         zk2 = self.zk.clone_tree()
         stored = self.stored_placement(zk2)
+        scheduled_before = set(zk2.children(z.SCHEDULED) or [])
+        ctimes = {}
+        for app, recs in stored.items():
+            for srv, _data in recs:
+                pres = zk2.nodes.get(z.path.server_presence(srv))
+                entry = zk2.nodes.get(z.path.placement(srv, app))
+                ctimes[(srv, app)] = (pres.ctime if pres else None,
+                                      entry.ctime)
         client = zk2.connect('probe-master')
         probe = mastermod.Master(zkbackend.ZkBackend(client), 'cell')
         try:
@@ -605,15 +613,18 @@ class World:
             if len(stored[app]) != 1:
                 continue
             srv, data = stored[app][0]
-            pres = zk2.nodes.get(z.path.server_presence(srv))
-            entry = zk2.nodes.get(z.path.placement(srv, app))
-            if pres is None or entry is None:
-                continue
-            if pres.ctime > entry.ctime:
+            pres_ctime, entry_ctime = ctimes[(srv, app)]
+            if pres_ctime is None:
+                continue          # server not present
+            if pres_ctime > entry_ctime:
                 continue          # server restarted since the placement
             oldapp = old.cell.apps.get(app)
             if oldapp is None or oldapp.server != srv:
                 continue          # not what the old master published
+            if app not in scheduled_before:
+                # unscheduled in the meantime (e.g. by the cycle's own
+                # _unschedule_evicted): nothing to reload
+                continue
             self.probes['entries_strong'] += 1
             obj = probe.cell.apps.get(app)
             if obj is None or obj.server != srv:
@@ -819,14 +830,56 @@ class Generator:
     def g_restart(self, world):
         return {'op': 'restart'}
 
+    # -- targeted multi-op scenarios (faults placed inside in-flight state)
+    def g_failover_after_down(self, world):
+        """A server with instances goes down, its retention passes, and the
+        master fails over before it ran another cycle."""
+        stored = world.stored_placement()
+        servers = sorted({s for recs in stored.values() for s, _d in recs
+                          if world.zk.nodes.get(z.path.server_presence(s))})
+        if not servers:
+            return None
+        name = self.rng.choice(servers)
+        self.follow.extend([
+            {'op': 'advance', 'dt': self.rng.choice([31.0, 301.0, 3601.0])},
+            {'op': 'restart'}])
+        return {'op': 'presence_down', 'name': name}
+
+    def g_identity_churn(self, world):
+        """The holder of a low identity leaves, then the group shrinks below
+        an identity that is still held; optionally the master fails over."""
+        master = world.master
+        if master is None:
+            return None
+        by_group = {}
+        for name in sorted(master.cell.apps):
+            app = master.cell.apps[name]
+            if app.identity_group and app.identity is not None and app.server:
+                by_group.setdefault(app.identity_group, []).append(
+                    (app.identity, name))
+        groups = sorted(g for g, v in by_group.items() if len(v) >= 2)
+        if not groups:
+            return None
+        group = self.rng.choice(groups)
+        held = sorted(by_group[group])
+        low_name = held[0][1]
+        top = held[-1][0]
+        self.follow.extend([
+            {'op': 'drain'}, {'op': 'master_cycle'},
+            {'op': 'group', 'name': group, 'count': top},
+            self.rng.choice([{'op': 'restart'}, {'op': 'drain'}]),
+            {'op': 'master_cycle'}])
+        return {'op': 'app_delete', 'name': low_name}
+
 
 OP_WEIGHTS = [
-    ('app_create', 22), ('app_delete', 6), ('app_prio', 4), ('srv_set', 6),
+    ('app_create', 30), ('app_delete', 6), ('app_prio', 4), ('srv_set', 6),
     ('srv_delete', 2), ('presence_up', 6), ('presence_down', 6),
     ('allocations', 3), ('group', 4), ('group_delete', 1), ('srv_state', 4),
     ('apps_blacklist', 2), ('blackout_server', 1), ('running', 4),
     ('advance', 8), ('snap', 10), ('process', 14), ('drain', 10),
     ('master_cycle', 22), ('integrity', 3), ('tick', 1), ('restart', 3),
+    ('failover_after_down', 3), ('identity_churn', 3),
 ]
 
 
@@ -868,10 +921,10 @@ def gen_allocations(rng, cfg):
                     'assignments': [],
                 }
                 for proid in cfg['proids']:
-                    if rng.random() < 0.4:
+                    if rng.random() < 0.6:
                         alloc['assignments'].append({
                             'pattern': '%s.%s' % (proid, rng.choice(
-                                ['*', 'web*', 'db*'])),
+                                ['*', '*', 'web*', 'db*'])),
                             'priority': rng.choice([1, 10, 50])})
                 out.append(alloc)
     return out
@@ -886,7 +939,7 @@ def make_config(prop, tier, rng):
         topology.append(['pod:p%d' % p, ['rack:p%dr%d' % (p, r)
                                          for r in range(rng.randint(1, 2))]])
     cfg['topology'] = topology
-    nparts = rng.choice([1, 1, 2])
+    nparts = rng.choice([1, 2, 2])
     cfg['partitions'] = ['_default'] + ['part%d' % i for i in range(1, nparts)]
     cfg['traits'] = ['t%d' % i for i in range(rng.choice([0, 1, 2]))]
     cfg['proids'] = ['proid%d' % i for i in range(rng.randint(1, 3))]
